@@ -161,7 +161,7 @@ def _candidates(plan):
         yield "no stale buffer", c
     # knobs
     k = plan.get("knobs", {})
-    for key, simple in (("line_preempt", False), ("pool", "serial"), ("mode", "threads"), ("state_digest", False), ("clock_jump", 0.0), ("pool_points", False), ("pool_workers", 1), ("workdir", "w"), ("relpath", None), ("pct_depth", 0), ("locale", None), ("mtime_granularity", None), ("clock_slow", False), ("symlink", False), ("gc", None), ("fork_at", "spawn"), ("stall", None)):
+    for key, simple in (("line_preempt", False), ("pool", "serial"), ("mode", "threads"), ("state_digest", False), ("clock_jump", 0.0), ("pool_points", False), ("pool_workers", 1), ("workdir", "w"), ("relpath", None), ("pct_depth", 0), ("locale", None), ("mtime_granularity", None), ("clock_slow", False), ("symlink", False), ("gc", None), ("fork_at", "spawn"), ("stall", None), ("stall_task", None)):
         if k.get(key) != simple and key in k:
             c = P(plan)
             c["knobs"][key] = simple
